@@ -57,7 +57,7 @@ def unit_list(fe):
             has = lambda x: L.Or(*[u == x for u in ul]) if len(ul) else False
             E.prove('units:every-hosted-unit-is-accepted', L.And(*[has(i) for i in ids]) if ids else True)
             E.prove('units:single-flag-is-the-contexts', L.Iff(L.truth(single), L.truth(ctx.single)))
-            fk = {'finding': 'C10-F1', 'region': L.And(broadcast, L.Not(L.truth(ctx.single)))} if fe == 'sync.udp' else {}
+            fk = {}          # (C10-F1, sync UDP handler never admitting unit 0, was repaired: /repo fcf8570)
             E.prove('units:unit-0-is-accepted-when-broadcast-is-enabled', L.Implies(broadcast, L.Or(has(0), L.truth(single))), **fk)
         fr = E.stub('framer', {'processIncomingPacket': pip, 'resetFrame': lambda: None})
         chunk = E.bytes('chunk', 1, 64)
